@@ -508,10 +508,19 @@ class ExprMixin:
                 out.extend(self.getattr_(s, obj, node.attr, node))
         return out
 
+    def record_field(self, cls, attr):
+        if not self.is_record_class(cls):
+            return None
+        return getattr(getattr(cls, "DESCRIPTOR", None), "fields_by_name", {}).get(attr)
+
     def getattr_(self, st, obj, attr, node=None, default=MISSING, raw=False):
         """Full Python attribute lookup. raw=True: object.__getattribute__ semantics (no __getattr__ hook)."""
         if isinstance(obj, SRef):
             return self.getattr_ref(st, obj, attr, node, default, raw)
+        if isinstance(obj, RecSlot):
+            if attr == "CopyFrom":
+                return [(st, BoundMethod(("recslot", "CopyFrom"), obj))]
+            raise Unsupported(f"attribute {attr} of an unset protobuf sub-message", node)
         if isinstance(obj, SSlice):
             if attr in ("start", "stop", "step"):
                 return [(st, getattr(obj, attr))]
@@ -643,7 +652,11 @@ class ExprMixin:
             if kind == "override":
                 out.append((s, r[1](self, s, ref)))
             elif kind == "field":
-                out.extend(self.read_field(s, ref, attr))
+                got = self.read_field(s, ref, attr)
+                fd = self.record_field(classes[0], attr)
+                if fd is not None and fd.message_type is not None and fd.label != fd.LABEL_REPEATED:
+                    got = [(s2, RecSlot(ref, attr) if v is None else v) for s2, v in got]
+                out.extend(got)
             elif kind == "property":
                 out.extend(self.call_function(s, r[1], [ref], {}, node))
             elif kind == "method":
